@@ -71,6 +71,7 @@ var profiles = map[string][]profile{
 			Access: map[string]bool{"knownValue.set": true, "Classifier.values": true, "matcher.queue": true, "*": true},
 			Deref:  map[string]map[string]bool{"matcher.queue": {"Len": true, "Min": true}}}}},
 		{Pkg: v1 + "/stringclassifier/searchset", Files: map[string]fileOpts{"searchset.go": {Sync: true, Go: true, ChanAll: true, NoElementReads: true, Access: map[string]bool{"*": true}}}},
+		{Pkg: v1 + "/stringclassifier/searchset/tokenizer", Files: map[string]fileOpts{"tokenizer.go": {Sync: true, Go: true, ChanAll: true, NoElementReads: true, Access: map[string]bool{"*": true}}}},
 	},
 	"backend": {{Pkg: v1 + "/v2/tools/identify_license/backend", Files: map[string]fileOpts{"backend.go": {Sync: true, Go: true,
 		ChanIn: map[string]bool{"ClassifyLicenses": true}, Access: map[string]bool{"ClassifierBackend.results": true, "*": true}}}}},
